@@ -168,3 +168,90 @@ Definition decorate_stores_what_link_attaches (ft : list (string * list gstmt)) 
       decs_stored_last ds && stores_spacing ds
     | _, _ => false
     end) u.
+
+(* ---- the same conversion, read declaratively ---------------------------------------------------- *)
+(* decorateNode assigns every field of out exactly once (decs last); read as a record expression it
+   is: values from the NSet statements, children from NNode / NList / NInit (an NInit child holds the
+   values and children assigned through it), every decoration point of the kind with what link
+   attached to (node, point), Before / After.  Both readings are corresponded against the real
+   Decorator; the theorems about the dst tree use this one. *)
+Definition set_value (t : tree) (dk : list (string * kid dtree)) (v : vsrc) : option val :=
+  match v with
+  | VCopy p => dval t dk p
+  | VValid p => Some (VBool (pos_valid (dval t dk p)))
+  | VNoPos p => Some (VBool (negb (pos_valid (dval t dk p))))
+  | VConst c => Some (VBool (String.eqb c "true"))
+  | VExpr e =>
+    if String.eqb e "int(n.To - n.From)" then
+      match dval t dk ["To"], dval t dk ["From"] with
+      | Some (VPos b), Some (VPos a) => Some (VInt (b - a))
+      | _, _ => None
+      end
+    else None
+  end.
+
+(* values / children assigned at out.<pre>.F for the given prefix *)
+Definition vals_under (t : tree) (dk : list (string * kid dtree)) (pre : path) (stmts : list nstmt) : list (string * val) :=
+  flat_map (fun s => match s with
+                     | NSet o v => match o with
+                                   | [f] => match pre with [] => match set_value t dk v with Some x => [(f, x)] | None => [] end | _ => [] end
+                                   | [g; f] => match pre with [g'] => if String.eqb g g' then match set_value t dk v with Some x => [(f, x)] | None => [] end else [] | _ => [] end
+                                   | _ => []
+                                   end
+                     | _ => []
+                     end) stmts.
+
+Definition kid_of_stmt (dk : list (string * kid dtree)) (s : nstmt) : option (path * kid tree) :=
+  match s with
+  | NNode p o _ _ _ _ => match dsub dk p with Some (One (Some c)) => Some (o, One (Some (dt_res c))) | _ => None end
+  | NList p o _ _ _ _ => match dsub dk p with Some (Many l) => Some (o, Many (map dt_res l)) | _ => None end
+  | NMapNodes [f] _ _ _ => match dsub dk [f] with Some (Many l) => Some ([f], Many (map dt_res l)) | _ => None end   (* Package.Files *)
+  | _ => None
+  end.
+
+Definition kids_under (dk : list (string * kid dtree)) (pre : path) (stmts : list nstmt) : list (string * kid tree) :=
+  flat_map (fun s => match kid_of_stmt dk s with
+                     | Some ([f], x) => match pre with [] => [(f, x)] | _ => [] end
+                     | Some ([g; f], x) => match pre with [g'] => if String.eqb g g' then [(f, x)] else [] | _ => [] end
+                     | _ => []
+                     end) stmts.
+
+(* the children of out, in statement order: NInit [f] (a new node holding what is assigned through
+   it), NNode / NList with out path [f] *)
+Definition top_entry (du : list (string * list string)) (t : tree) (dk : list (string * kid dtree)) (stmts : list nstmt) (s : nstmt) : list (string * kid tree) :=
+  match s with
+  | NInit [f] ty =>
+    let id := match dsub dk [f] with Some (One (Some c)) => tid (dt_tree c) | _ => 0%N end in
+    [(f, One (Some (Node id ty (vals_under t dk [f] stmts) (kids_under dk [f] stmts)
+                         (match lookup du ty with Some ps => map (fun p => (p, [])) ps | None => [] end) SNone SNone)))]
+  | _ => match kid_of_stmt dk s with Some ([f], x) => [(f, x)] | _ => [] end
+  end.
+
+Definition kids_top du t dk (stmts : list nstmt) : list (string * kid tree) := flat_map (top_entry du t dk stmts) stmts.
+
+Definition dnodeD (du : list (string * list string)) (tbl : list (string * list nstmt)) (att : lstate) (t : tree) (dk : list (string * kid dtree)) : tree :=
+  match lookup tbl (tkind t) with
+  | Some stmts =>
+    let pts := nd_points stmts in
+    Node (tid t) (tkind t) (vals_under t dk [] stmts) (kids_top du t dk stmts)
+         (match lookup du (tkind t) with
+          | Some ps => map (fun p => (p, if existsb (String.eqb p) pts then dget (l_decs att) (tid t, p) else [])) ps
+          | None => []
+          end)
+         (if existsb (fun s => match s with NSpace false => true | _ => false end) stmts then space_of (l_before att) (tid t) else SNone)
+         (if existsb (fun s => match s with NSpace true => true | _ => false end) stmts then space_of (l_after att) (tid t) else SNone)
+  | None => Node (tid t) "?" [] [] [] SNone SNone
+  end.
+
+Fixpoint dbuildD (du : list (string * list string)) (tbl : list (string * list nstmt)) (att : lstate) (t : tree) : dtree :=
+  match t with
+  | Node id k vals kids decs b a =>
+    let dk := map (fun p => (fst p, match snd p with
+                                    | One (Some c) => One (Some (dbuildD du tbl att c))
+                                    | One None => One None
+                                    | Many l => Many (map (dbuildD du tbl att) l)
+                                    end)) kids in
+    DT t (dnodeD du tbl att t dk) dk
+  end.
+
+Definition decorateD (du : list (string * list string)) (tbl : list (string * list nstmt)) (att : lstate) (t : tree) : tree := dt_res (dbuildD du tbl att t).
